@@ -25,7 +25,8 @@ func (h *bufHandle) content() string {
 
 // OpBufferHistory emits one `BH` record: a history of operations over one ByteBuffer; after every
 // step the content and capacity of every value handed out so far is re-read.
-//   BH <initcap> | op ; op ; … | obs ; obs ; …      obs = <newcap> <h0cap>:<h0hex> <h1cap>:<h1hex> …
+//
+//	BH <initcap> | op ; op ; … | obs ; obs ; …      obs = <newcap> <h0cap>:<h0hex> <h1cap>:<h1hex> …
 func OpBufferHistory(o *Out, r *Rng, initCap int, steps int) {
 	buf := inspector.NewByteBuffer(initCap)
 	var hs []*bufHandle
